@@ -124,7 +124,7 @@ CLAIMED = {
    technique='static analysis: writer/reader guard agreement (normalised comparisons + dominance) over rustc MIR',
    ref='DESIGN.md section 2, C03'),
  'C09': dict(level='proof',
-   text='Clauses proved on the MIR: (RI-3) Ukkonen::find_all_end clears and refills both reused DP columns on every path before the iterator is built, Matches::next never resizes them; (EF-2) for both instantiations of impl_myers! distance/find_all_end/find_best_end take &self and the Myers types cannot hold interior mutability; (PO-5) every panic / overflow obligation of the block-based column update (long::States::{new,add_state,step}, advance_block, ceil_div, word_size) is discharged or audited - this found max_dist + w overflowing for the usize::MAX that distance()/find_best_end() pass (wrong distances in release builds), repaired in /repo; (SB-11) both Myers constructors set a pattern symbol's own bit on every iteration of the per-symbol loop, whatever the ambiguity table contains. That reported distances equal the edit-distance definition (bit-vector arithmetic, block activation logic, delegated crates) is NOT decided.',
+   text='Clauses proved on the MIR: (RI-3) Ukkonen::find_all_end clears and refills both reused DP columns on every path before the iterator is built, Matches::next never resizes them; (EF-2) for both instantiations of impl_myers! distance/find_all_end/find_best_end take &self and the Myers types cannot hold interior mutability; (PO-5) every panic / overflow obligation of the block-based column update (long::States::{new,add_state,step}, advance_block, ceil_div, word_size) is discharged or audited - this found max_dist + w overflowing for the usize::MAX that distance()/find_best_end() pass (wrong distances in release builds), repaired in /repo; (SB-11) both Myers constructors set the own bit of a pattern symbol on every iteration of the per-symbol loop, whatever the ambiguity table contains. That reported distances equal the edit-distance definition (bit-vector arithmetic, block activation logic, delegated crates) is NOT decided.',
    note='Trusted: rustc MIR, extractor, RI engine; Vec::clear semantics.',
    technique='static analysis: must-reset dataflow and receiver/Freeze effect analysis over rustc MIR',
    ref='DESIGN.md section 2, C09'),
